@@ -45,7 +45,7 @@ func init() { Register(c10{}) }
 func (c10) ID() string       { return "C10" }
 func (c10) New() interface{} { return &C10Case{} }
 func (c10) Rule() string {
-	return "replay runs (3 of 4): one of 12 randomised operations (ShuffleSequences, ShuffleSites, Swap, SimulateRogue, BuildBootstrap, Sample, RandSubAlign window / sites, Mutate, AddGaps, Recombine, Rarefy) on a generated alignment (1-8 rows, length a multiple of 4 up to 24, nucleotide or protein, gaps) with dyadic rates at and inside the borders of their domains; the operation runs three times from the same product seed (rand.Seed) - twice under one map-iteration order and clock, once under another order and a clock one hour later - and the results must be identical; the statement's invariant for the operation is evaluated on the result. Support runs (1 of 4): a 4x4 or 5x4 alignment with pairwise distinct rows and columns, 400 product seeds, and every admissible outcome (each site bootstrapped, each row sampled / first / last after a shuffle / chosen as rogue, each window offset including the last, each column selected, each swap and recombination position, each site gapped, each letter substituted) must occur. Distinct = distinct (kind, operation, arguments, alignment shape, seed); non-trivial = at least 2 rows and 2 columns and a rate that makes the operation draw."
+	return "cli runs (1 of 12): the operation asked of the command tree in-process (cmd.RootCmd with --seed, the product's one seeding point; shuffle seqs / sites / swap / rogue / recomb, sample seqs / sites / rarefy, mutate snvs / gaps, build seqboot), executed twice with the same seed - another seeded command in between, another map order and clock the second time: every file written must be byte-identical, and the alignment printed must satisfy the statement's invariant for the operation. Replay runs (2 of 3 of the rest): one of 12 randomised operations (ShuffleSequences, ShuffleSites, Swap, SimulateRogue, BuildBootstrap, Sample, RandSubAlign window / sites, Mutate, AddGaps, Recombine, Rarefy) on a generated alignment (1-8 rows, length a multiple of 4 up to 24, nucleotide or protein, gaps) with dyadic rates at and inside the borders of their domains; the operation runs three times from the same product seed (rand.Seed) - twice under one map-iteration order and clock, once under another order and a clock one hour later - and the results must be identical; the statement's invariant for the operation is evaluated on the result. Support runs (1 of 4): a 4x4 or 5x4 alignment with pairwise distinct rows and columns, 400 product seeds, and every admissible outcome (each site bootstrapped, each row sampled / first / last after a shuffle / chosen as rogue, each window offset including the last, each column selected, each swap and recombination position, each site gapped, each letter substituted) must occur. Distinct = distinct (kind, operation, arguments, alignment shape, seed); non-trivial = at least 2 rows and 2 columns and a rate that makes the operation draw."
 }
 
 var dyadic = []float64{0, 0.25, 0.5, 0.75, 1}
@@ -76,7 +76,8 @@ func (c10) Gen(rs uint64, tier string, race bool) interface{} {
 	c.Clocks[1] = c.Clocks[0] + 3601e9
 	c.A, c.B = dyadic[r.Intn(5)], dyadic[r.Intn(5)]
 	c.Flag = r.Bool()
-	if r.Chance(0.25) {
+	cli := r.Chance(0.08)
+	if !cli && r.Chance(0.25) {
 		c.Kind = "support"
 		c.Aln = tinyAln(r.Pick(4, 5), 4)
 		switch c.Op {
@@ -151,7 +152,149 @@ func (c10) Gen(rs uint64, tier string, race bool) interface{} {
 	case "recombine":
 		c.A = []float64{0, 0.25, 0.5}[r.Intn(3)]
 	}
+	if cli {
+		c.Kind = "cli"
+	}
 	return c
+}
+
+// cliArgs: the command line that asks goalign for the operation of the case.
+func (c *C10Case) cliArgs() (args []string, files map[string]string) {
+	var fa strings.Builder
+	for i, n := range c.Aln.Names {
+		fmt.Fprintf(&fa, ">%s\n%s\n", n, c.Aln.Seqs[i])
+	}
+	files = map[string]string{"in.fa": fa.String()}
+	f := func(x float64) string { return fmt.Sprint(x) }
+	switch c.Op {
+	case "shuffle-seqs":
+		args = []string{"shuffle", "seqs"}
+	case "shuffle-sites":
+		args = []string{"shuffle", "sites", "-r", f(c.A), "--rogue", f(c.B), "--rogue-file", "rogues.txt"}
+		if c.Flag {
+			args = append(args, "--stable-rogues")
+		}
+	case "swap":
+		args = []string{"shuffle", "swap", "-r", f(c.A), "--pos", f(c.B)}
+	case "rogue":
+		args = []string{"shuffle", "rogue", "-n", f(c.A), "-l", f(c.B), "--rogue-file", "rogues.txt"}
+	case "bootstrap":
+		args = []string{"build", "seqboot", "-n", "2", "-o", "boot"}
+	case "sample":
+		args = []string{"sample", "seqs", "-n", fmt.Sprint(c.N)}
+	case "subalign-window":
+		args = []string{"sample", "sites", "-l", fmt.Sprint(c.N)}
+	case "subalign-sites":
+		args = []string{"sample", "sites", "-l", fmt.Sprint(c.N), "--consecutive=false"}
+	case "mutate":
+		args = []string{"mutate", "snvs", "-r", f(c.A)}
+	case "addgaps":
+		args = []string{"mutate", "gaps", "-r", f(c.A), "-n", f(c.B)}
+	case "recombine":
+		args = []string{"shuffle", "recomb", "-n", f(c.A), "-l", f(c.B)}
+		if c.Flag {
+			args = append(args, "--swap")
+		}
+	case "rarefy":
+		var cf strings.Builder
+		for i, n := range c.Aln.Names {
+			fmt.Fprintf(&cf, "%s\t%d\n", n, c.Counts[i])
+		}
+		files["counts.txt"] = cf.String()
+		args = []string{"sample", "rarefy", "-n", fmt.Sprint(c.N), "-c", "counts.txt"}
+	default:
+		panic("op " + c.Op)
+	}
+	args = append(args, "-i", "in.fa", "-t", "1", "--seed", fmt.Sprint(c.Seed))
+	return
+}
+
+// runCLIKind: the operation asked of the command tree (cmd.RootCmd, whose --seed is the product's one seeding
+// point), twice with the same seed - another seeded command in between, another map order and clock the second
+// time - must write the same bytes, and what it writes must satisfy the statement's invariant for the operation.
+func (c *C10Case) runCLIKind(ctx *Ctx, o *Outcome, fail func(string, string, ...interface{})) {
+	args, files := c.cliArgs()
+	a := runInProc(ctx, args, files, c.MapSeeds[0], c.Clocks[0])
+	runInProc(ctx, []string{"shuffle", "sites", "-r", "1", "-i", "in.fa", "--seed", fmt.Sprint(c.Seed + 1)}, files, c.MapSeeds[0], c.Clocks[0])
+	b := runInProc(ctx, args, files, c.MapSeeds[1], c.Clocks[1])
+	o.Add("sched_steps", int64(a.sr.Steps+b.sr.Steps))
+	for _, x := range []inprocResult{a, b} {
+		for _, p := range x.sr.Panics {
+			if p.Exit >= 0 {
+				continue
+			}
+			fs := goalignFuncs(p.Stack)
+			top := "?"
+			if len(fs) > 0 {
+				top = fs[0]
+			}
+			fail("panic:"+top, "goalign %s: goroutine g%d panicked: %s\n%s", strings.Join(args, " "), p.Gid, p.Panic, p.Stack)
+			return
+		}
+		if x.sr.Deadlock || x.sr.Budget {
+			fail("hang", "goalign %s never finished (%d steps)\n%s", strings.Join(args, " "), x.sr.Steps, x.sr.Stacks)
+			return
+		}
+	}
+	if a.exit != b.exit || (a.err == nil) != (b.err == nil) {
+		fail("replay-differs:cli", "goalign %s ends with status %d / error %v the first time and status %d / error %v the second", strings.Join(args, " "), a.exit, a.err, b.exit, b.err)
+		return
+	}
+	var fnames []string
+	for n := range a.files {
+		fnames = append(fnames, n)
+	}
+	for n := range b.files {
+		if _, ok := a.files[n]; !ok {
+			fnames = append(fnames, n)
+		}
+	}
+	sort.Strings(fnames)
+	for _, n := range fnames {
+		if string(a.files[n]) != string(b.files[n]) {
+			fail("replay-differs:cli", "goalign %s: two executions with the same --seed write different %s: %s", strings.Join(args, " "), n, firstDiff(a.files[n], b.files[n]))
+			return
+		}
+	}
+	if a.exit >= 0 || a.err != nil {
+		o.Add("cli_command_failed_both_times", 1)
+		return
+	}
+	o.Add("cli_replays_identical", 1)
+	if c.Op == "bootstrap" {
+		return // writes one file per replicate; its invariants are evaluated on the library call
+	}
+	var res opResult
+	res.names, res.seqs = parseFastaText(a.files["stdout.txt"])
+	for i := range res.names {
+		res.rows = append(res.rows, res.names[i]+":"+res.seqs[i])
+	}
+	rogues := strings.Fields(string(a.files["rogues.txt"]))
+	switch c.Op {
+	case "shuffle-sites":
+		res.extra = strings.Join(rogues, ",")
+	case "rogue":
+		isR := map[string]bool{}
+		for _, x := range rogues {
+			isR[x] = true
+		}
+		var intact []string
+		for _, n := range c.Aln.Names {
+			if !isR[n] {
+				intact = append(intact, n)
+			}
+		}
+		res.extra = strings.Join(rogues, ",") + ";" + strings.Join(intact, ",")
+	}
+	if len(res.names) == 0 {
+		fail("invariant:empty-output:cli", "goalign %s succeeds and prints no alignment", strings.Join(args, " "))
+		return
+	}
+	if cl, msg := c.invariant(&res); cl != "" {
+		fail("invariant:"+cl+":cli", "goalign %s: %s\nresult: %s", strings.Join(args, " "), msg, res.key())
+		return
+	}
+	o.Add("cli_invariant_checked", 1)
 }
 
 // PickS0 picks one of the given floats.
@@ -500,6 +643,10 @@ func (c10) Run(ctx *Ctx, ci interface{}) (o Outcome) {
 			o.Fail("panic:"+top, "panic: %v\n%s\n%s", p, c.describe(), st)
 		}
 	}()
+	if c.Kind == "cli" {
+		c.runCLIKind(ctx, &o, fail)
+		return
+	}
 	if c.Kind == "replay" {
 		verifrt.SetMapSeed(c.MapSeeds[0], true)
 		verifrt.SetClock(c.Clocks[0], true)
